@@ -203,12 +203,15 @@ func (br *BlockReader) SkipNext() (*BlockMetadata, error) {
 
 	// move our reader forward; either by seeking or slurping
 
+	var start int64 // position in a seekable source at which the archive begins
 	brs, ok := br.r.(io.ReadSeeker)
 	if ok {
 		// A reader may have a Seek method without being seekable (e.g. an *os.File over a
 		// pipe); a failed Seek consumed nothing, so fall back to reading the block bytes.
-		if _, err := brs.Seek(0, io.SeekCurrent); err != nil {
+		if cur, err := brs.Seek(0, io.SeekCurrent); err != nil {
 			ok = false
+		} else {
+			start = cur - int64(br.offset) - int64(lenSize) - int64(cidSize)
 		}
 	}
 	if ok {
@@ -234,7 +237,9 @@ func (br *BlockReader) SkipNext() (*BlockMetadata, error) {
 		if err != nil {
 			return nil, err
 		}
-		if finalOffset != int64(br.offset)+int64(lenSize)+int64(sectionSize) {
+		// br.offset counts from where the archive starts, which is not position 0 of the source
+		// when the caller handed over a source it had already advanced.
+		if finalOffset-start != int64(br.offset)+int64(lenSize)+int64(sectionSize) {
 			return nil, errors.New("unexpected length")
 		}
 		if finalOffset > br.readerSize {
